@@ -37,7 +37,12 @@ Theorem C11_evolve_advances_age_by_n :
 Proof. exact evolve_age. Qed.
 Print Assumptions C11_evolve_advances_age_by_n.
 
-From Coq Require Import ZArith.
+From Coq Require Import ZArith QArith.
+From Bingo Require Import Gen.Consts.
+(* the modelled half_round is int(round(fraction * len)) for the fraction the code passes *)
+Example C11_fraction_is_one_half : (migration_fraction == 1 # 2)%Q.
+Proof. reflexivity. Qed.
+Local Close Scope Q_scope.
 (* non-vacuity: a legal tape; islands 2 and 0 exchange, island 1 sits out *)
 Example C11_example_run :
   migrate [[(0,true);(1,true);(2,true)]; [(3,true);(4,false);(5,true)]; [(6,true);(7,true);(8,true)]]
